@@ -1098,10 +1098,11 @@ def batch_cases(ctx):
                     ser = [isinstance(c, sf.Series) for c in conts]
                     supported = bool(conts) and not s_failed
                     if supported and all(ser):
-                        supported = all(lit.labels(c.index) == lit.labels(conts[0].index) for c in conts)
+                        # zero-length Series would make a Frame without columns/rows: Frame.from_concat's business (C11)
+                        supported = all(lit.labels(c.index) == lit.labels(conts[0].index) for c in conts) and len(conts[0].index) > 0
                     elif supported and not any(ser):
                         other = (lambda c: lit.labels(c.columns)) if axis == 0 else (lambda c: lit.labels(c.index))
-                        supported = all(other(c) == other(conts[0]) for c in conts)
+                        supported = all(other(c) == other(conts[0]) for c in conts) and len(other(conts[0])) > 0
                         kinds = {c.values.dtype.kind for c in conts}
                         supported = supported and len(kinds) == 1
                     else:
